@@ -375,9 +375,10 @@ func acceptableToConsensus(lab *rhplab.Lab, id types.FileContractID, latest type
 	if err := lab.Sync(); err != nil {
 		return inconclusive("%v", err)
 	}
-	_, fce, err := lab.Contractor.V2FileContractElement(id)
-	if err != nil {
-		return inconclusive("no on-chain element for %v: %v", id, err)
+	// the lab's own copy of the on-chain element (proof kept current across reorgs)
+	_, fce, ok := lab.Element(id)
+	if !ok {
+		return inconclusive("no on-chain element for %v", id)
 	}
 	if latest.RevisionNumber == fce.V2FileContract.RevisionNumber {
 		return nil // nothing to broadcast
